@@ -889,8 +889,26 @@ type nopFn struct{}
 func (e *Exec) randomFill(s *SliceV) Value {
 	if s.Len > 0 {
 		arr := sliceArr(s)
+		var draw []*Term
 		for i := 0; i < s.Len; i++ {
-			arr.E[s.Off+i] = e.fresh("random", 8)
+			t := e.fresh("random", 8)
+			arr.E[s.Off+i] = t
+			draw = append(draw, t)
+		}
+		// contract of the random source: independent draws of the same length (>= 3 bytes:
+		// transaction ids) do not collide
+		if s.Len >= 3 {
+			for _, prev := range e.randomDraws {
+				if len(prev) != len(draw) {
+					continue
+				}
+				differ := e.tb.F
+				for i := range draw {
+					differ = e.tb.Or(differ, e.tb.Not(e.tb.Eq(draw[i], prev[i])))
+				}
+				e.assume(differ)
+			}
+			e.randomDraws = append(e.randomDraws, draw)
 		}
 	}
 	return &TupleV{E: []Value{e.tb.Const(64, uint64(s.Len)), &IfaceV{}}}
